@@ -158,7 +158,20 @@ func newKit2() *kit {
 			n := native2([]solidG{pos, neg})
 			return s2{&model2d.SubtractedSolid{Positive: n[0], Negative: n[1]}}
 		},
-		optimize: func(ops []solidG) solidG { return s2{model2d.JoinedSolid(native2(ops)).Optimize()} },
+		optimize: func(ops []solidG) solidG {
+			// the caller keeps its operand list: Optimize must not reorder or overwrite it
+			list := native2(ops)
+			before := append([]model2d.Solid{}, list...)
+			res := model2d.JoinedSolid(list).Optimize()
+			for i := range list {
+				if !sameOperand(list[i], before[i]) {
+					optimizeReordered.Add(1)
+					break
+				}
+			}
+			optimizeChecked.Add(1)
+			return s2{res}
+		},
 		mux:      func(ops []solidG) muxG { return &mux2{model2d.NewSolidMux(native2(ops))} },
 		staged: func(ops []solidG, cuts []int) (solidG, solidG) {
 			all := native2(ops)
